@@ -2,12 +2,14 @@ import Driver.KV
 import Driver.Codec
 import Driver.Parsers
 import Driver.Cluster
+import Driver.PubSub
 open Driver
 
 structure World where
   kv : St := {}
   ps : PSt := {}
   cs : CSt := {}
+  pss : PSt2 := {}
 
 def step (w : World) (line : String) : World × String :=
   match words line with
@@ -23,8 +25,14 @@ def step (w : World) (line : String) : World × String :=
         | some (ps', out) => ({ w with ps := ps' }, out)
         | none =>
           match clusterStep w.cs w.kv.now op args with
-          | some (cs', out) => ({ w with cs := cs' }, out)
-          | none => (w, "bad-op")
+          | some (cs', out) =>
+            -- a new cluster also resets the pub/sub model
+            let w' := if op == "c.new" then { w with pss := { ps := Olric.PubSub.PS.empty, nmembers := cs'.n } } else w
+            ({ w' with cs := cs' }, out)
+          | none =>
+            match pubsubStep w.pss op args with
+            | some (p', out) => ({ w with pss := p' }, out)
+            | none => (w, "bad-op")
 
 partial def loop (hin hout : IO.FS.Stream) (w : World) : IO Unit := do
   let line ← hin.getLine
